@@ -18,6 +18,8 @@ pub mod c08;
 #[cfg(kani)]
 pub mod c11;
 #[cfg(kani)]
+pub mod c16;
+#[cfg(kani)]
 pub mod c18;
 #[cfg(kani)]
 pub mod c19;
